@@ -44,6 +44,22 @@ def gen_cases(ctx):
                         feeds = [("b", 0) + b for b in bar_stream(r, n, r.choice(["walk", "grid", "flatish"]))]
                     cases.append(Case("%s_g%d_%s%d" % (ind, gi, mode, rep), [new_op(0, ind, pr)] + feeds, dump=(0,),
                                       meta={"ind": ind, "params": pr, "mode": mode, "n": n}))
+    # seed-independent corner wiring: (c) PPO / MACD on streams that start with zeros and return to zero (slow average exactly 0: the
+    # documented quotient is 0/0 or x/0, whatever a guard would prefer); (d) infinite / NaN multipliers over flat stretches (SD = 0 or
+    # ATR = 0 times inf is NaN in the documented formula, not "no band")
+    for ind in ("PPO", "MACD"):
+        for pr in ((2, 3, 2, 0.0), (1, 2, 1, 0.0), (3, 2, 2, 0.0)):
+            xs = [0.0, 0.0, 2.0, 3.0, 4.0, 0.0, 0.0, -0.0, 0.0, 1.0, 0.0, 0.0, 5.0, 2.5, 0.0]
+            cases.append(Case("%s_zeros_%d_%d" % (ind, pr[0], pr[1]), [new_op(0, ind, pr)] + [("n", 0, x) for x in xs], dump=(0,),
+                              meta={"ind": ind, "params": pr, "mode": "n", "n": len(xs)}))
+    for ind in ("BB", "KC", "CE"):
+        for mi_, m_ in enumerate((float("inf"), float("-inf"), float("nan"))):
+            pr = (3, 0, 0, m_)
+            xs = [5.0, 5.0, 7.0, 7.0, 7.0, 7.0, 7.0, 3.0, 4.0, 4.0, 4.0, 4.0, 4.0, 6.0]
+            mode = "b" if ind == "CE" else "n"
+            feeds = [("b", 0, x, x, x, x, 1.0) for x in xs] if mode == "b" else [("n", 0, x) for x in xs]
+            cases.append(Case("%s_mult_nonfinite%d" % (ind, mi_), [new_op(0, ind, pr)] + feeds, dump=(0,),
+                              meta={"ind": ind, "params": pr, "mode": mode, "n": len(xs)}))
     # seed-independent: (a) Default::default() composites are wired from the documented default parameters; (b) a cliff — three prices
     # near 1.5e6, then an almost flat level near 100 — where BollingerBands' own running mean must keep agreeing with SMA
     from props.C11 import DEFAULTS
